@@ -26,6 +26,43 @@ pub enum Algorithm {
 /*@*/     }
 /*@*/ }
 
+/*@*/ // ---- C04 end to end (spec level): entry point -> stored diff -> iter_all_changes -> the texts ----
+/*@*/ /// For a TextDiff as the text entry points return it (TextDiffConfig::diff_lines / diff_words / diff_chars, unit txt:
+/*@*/ /// `d.wf()` and `tok_post(old_text, kind, d.old_toks()@)`, of which the partition clause is used here), the changes
+/*@*/ /// `d.iter_all_changes()` runs over are `expand_all(d.stored_ops())` over the two stored token slices (contract of
+/*@*/ /// TextDiff::iter_all_changes below + AllChangesIter::next, unit itr).  Then: the byte views of the values of all
+/*@*/ /// changes that are NOT Insert, concatenated in order, are the bytes of the old text.  (`val_of(c, ot, nt)` is the byte
+/*@*/ /// view of the token a change's value is a clone of, H-CLONE of reconstruct.rs.)
+/*@*/ pub proof fn lemma_entry_reconstruct_old<'old, 'new, 'bufs, T: DiffableStr + ?Sized>(d: &TextDiff<'old, 'new, 'bufs, T>, old_text: &T)
+/*@*/   requires d.wf(), tokens_partition(old_text.bytes(), toks(d.old_toks()@)),
+/*@*/   ensures ({ let ot = toks(d.old_toks()@); let nt = toks(d.new_toks()@);
+/*@*/       let vo = proj(expand_all(d.stored_ops()), sel_value(true, ot, nt));
+/*@*/       vo == ot && cat(vo, 0, vo.len() as int) == old_text.bytes() }),
+/*@*/ {
+/*@*/     let os = d.old_toks(); let ns = d.new_toks(); let n = os@.len() as usize; let m = ns@.len() as usize;
+/*@*/     vstd::slice::axiom_spec_len(os); vstd::slice::axiom_spec_len(ns);   // a slice's length is a usize
+/*@*/     lemma_script_of_xrun(rel_of(os, ns), d.stored_ops(), n, m, false);
+/*@*/     lemma_reconstruct_changes_old(d.stored_ops(), toks(os@), toks(ns@), n as int, m as int);
+/*@*/ }
+/*@*/
+/*@*/ /// the same for the new text and the changes that are NOT Delete.  An Equal change's value is read from the OLD
+/*@*/ /// slice, so this needs H-EQ: tokens the diff found equal (`==` of `T`, the abstract item relation of the algorithms)
+/*@*/ /// have the same bytes - true for str and [u8], whose `==` is byte equality; it is a hypothesis here because the item
+/*@*/ /// relation is uninterpreted in the contracts.
+/*@*/ pub proof fn lemma_entry_reconstruct_new<'old, 'new, 'bufs, T: DiffableStr + ?Sized>(d: &TextDiff<'old, 'new, 'bufs, T>, new_text: &T)
+/*@*/   requires d.wf(), tokens_partition(new_text.bytes(), toks(d.new_toks()@)),
+/*@*/       forall|i: int, j: int| #[trigger] rel_of(d.old_toks(), d.new_toks())(i, j) ==> toks(d.old_toks()@)[i] == toks(d.new_toks()@)[j],   // H-EQ
+/*@*/   ensures ({ let ot = toks(d.old_toks()@); let nt = toks(d.new_toks()@);
+/*@*/       let vn = proj(expand_all(d.stored_ops()), sel_value(false, ot, nt));
+/*@*/       vn == nt && cat(vn, 0, vn.len() as int) == new_text.bytes() }),
+/*@*/ {
+/*@*/     let os = d.old_toks(); let ns = d.new_toks(); let n = os@.len() as usize; let m = ns@.len() as usize;
+/*@*/     vstd::slice::axiom_spec_len(os); vstd::slice::axiom_spec_len(ns);   // a slice's length is a usize
+/*@*/     lemma_script_of_xrun(rel_of(os, ns), d.stored_ops(), n, m, false);
+/*@*/     lemma_equal_ok_of_rel(rel_of(os, ns), d.stored_ops(), toks(os@), toks(ns@));
+/*@*/     lemma_reconstruct_changes_new(d.stored_ops(), toks(os@), toks(ns@), n as int, m as int);
+/*@*/ }
+
 //@@ item src/text/mod.rs :: ^impl<'old, 'new, 'bufs, T: DiffableStr \+ \?Sized \+ 'old \+ 'new> TextDiff rw=R0 only=fn\s+(algorithm|newline_terminated|old_slices|new_slices|ops|iter_changes|iter_all_changes)\b
 impl<'old, 'new, 'bufs, T: DiffableStr + ?Sized + 'old + 'new> TextDiff<'old, 'new, 'bufs, T> {
 
